@@ -2,7 +2,8 @@ CHECK = {
     "suites": [suite("allocate", "c03", 6000, 600000, stdin=True),
                suite("raw", "c03", 2500, 120000, stdin=True, args=["-suite", "raw"]),
                suite("block", "c03", 2000, 80000, stdin=True, args=["-suite", "block"]),
-               suite("seq", "c03", 2500, 100000, stdin=True, args=["-suite", "seq"])],
+               suite("seq", "c03", 2500, 100000, stdin=True, args=["-suite", "seq"]),
+               suite("hist", "c03", 2000, 80000, stdin=True, args=["-suite", "hist"])],
     "gen": [{"pkg": "extract_c03", "out": "lean/ClusterVerif/Gen/C03.lean"}],
     "lean_sources": ["ClusterVerif/Model/C03Skeleton.lean", "ClusterVerif/Gen/C03.lean", "ClusterVerif/Model/C03.lean", "ClusterVerif/Spec/C03.lean", "ClusterVerif/Lemmas/C03.lean", "ClusterVerif/Lemmas/C03Sort.lean",
                      "ClusterVerif/Model/C03Pipeline.lean", "ClusterVerif/Lemmas/C03Pipeline.lean", "ClusterVerif/Model/C03Block.lean",
